@@ -388,6 +388,16 @@ def genesisFromEth1 (cfg : Config) (eth1BlockHash : Bytes) (time : Nat) (deps : 
   if (get_active_validator_indices state GENESIS_EPOCH).isEmpty then none
   pure state
 
+/-- `IsValidGenesisState(spec, state)`: the genesis time first, then a loop over the registry iterator that counts
+the validators active at `GENESIS_EPOCH` (`IsActive`: `activation_epoch <= epoch && epoch < exit_epoch`), compared
+with `MIN_GENESIS_ACTIVE_VALIDATOR_COUNT` -/
+def isValidGenesisState (cfg : Config) (s : State) : Bool :=
+  if s.genesis_time < cfg.MIN_GENESIS_TIME then false
+  else
+    let activeCount := s.validators.foldl (fun activeCount val =>
+      if val.activation_epoch ≤ GENESIS_EPOCH && GENESIS_EPOCH < val.exit_epoch then activeCount + 1 else activeCount) 0
+    decide (activeCount ≥ cfg.MIN_GENESIS_ACTIVE_VALIDATOR_COUNT)
+
 /-- `KickStartState` / `KickStartStateWithSignatures`: the caller has already turned the validator data into
 deposits (placeholder or real signatures, zero proofs) -/
 def kickStart (cfg : Config) (eth1BlockHash : Bytes) (time : Nat) (deps : List DepositIn) : Option State := do
